@@ -5,6 +5,8 @@
 PROP="$1"; SRC="$(readlink -f "$2")"; shift 2; EXTRA="$*"
 HERE="$(cd "$(dirname "$0")/.." && pwd)"
 WT="${VERIF_SCRATCH:-/var/tmp}/armi-seed.$$"
+# the kept demos import /var/tmp/seedtools/armi_env.py: (re)install it from the committed copy
+mkdir -p /var/tmp/seedtools && cp "$HERE/seeded/_support/armi_env.py" "$HERE/tools/baseline.py" /var/tmp/seedtools/ 2>/dev/null
 git -C /repo worktree add -q --detach "$WT" HEAD || exit 2
 trap 'git -C /repo worktree remove --force "$WT" >/dev/null 2>&1; rm -rf "$WT"' EXIT
 git -C /repo diff HEAD | (cd "$WT" && git apply --allow-empty 2>/dev/null)
